@@ -143,7 +143,7 @@ step_pos = st.one_of(
 adapter_st = st.one_of(
     st.just(["next"]), st.just(["prev"]), st.just(["lin"]), st.tuples(st.just("step"), step_pos).map(list)
 )
-push_st = st.tuples(st.just("push"), st.integers(1, 600), value_st).map(list)
+push_st = st.tuples(st.just("push"), st.one_of(st.integers(1, 600), st.integers(1, 600), st.sampled_from([1440, 2881, 10080])), value_st).map(list)
 frac_st = st.sampled_from(DENS).flatmap(lambda d: st.tuples(st.integers(0, d), st.just(d)))
 pull_st = st.tuples(st.just("pull"), st.integers(0, 5), frac_st).map(lambda x: ["pull", x[1], x[2][0], x[2][1]])
 out_st = st.tuples(st.just("out"), st.sampled_from(["after", "before"]), st.integers(1, 300)).map(list)
